@@ -2,6 +2,7 @@ package props
 
 import (
 	"fmt"
+	"go/token"
 	"go/types"
 	"os"
 	"strings"
@@ -71,7 +72,9 @@ func C16(c *Ctx) {
 	r.Explanation = "(A2) every write of a module's Params section is guarded, in the writing function, by Params.Validate()==nil on the very value that is marshalled; (A1) only keeper SetParams and the v3 migration write that section; " +
 		"(A8) no call site of a params writer (SetParams) drops its error, in handlers, genesis import or migrations; (A7) Params.Validate reads every field of the Params struct, hands it to a validator that has a value-dependent rejecting branch, and contains the cross-field rejections (default<=max, signers>=min accepts); MsgUpdateParams.ValidateBasic reaches Validate and propagates its error; " +
 		"(A6) no caching: no keeper struct or package variable has a Params type, and no keeper method stores through its receiver, so every use reads the store. Decides these structural necessary conditions for all inputs and call sites; numeric bounds inside validators are only checked for presence."
-	r.Rules = []string{"A1.params-writers", "A2.params-validated", "A8.setparams-error", "A7.validate-fields", "A7.validate-rule", "A7.validate-cross-field", "A7.update-validatebasic", "A3.update-stores", "A6.no-params-cache"}
+	r.Rules = []string{"A1.params-writers", "A2.params-validated", "A8.setparams-error", "A7.validate-fields", "A7.validate-rule", "A7.validate-cross-field", "A7.update-validatebasic", "A3.update-stores", "A6.no-params-cache", "A7.fee-formula"}
+	// a parameter takes effect as set: the fee split uses the stored rate itself
+	feeFormula(c)
 	r.Trusted = []string{"baseapp/gov call ValidateBasic before dispatch", "sdk.ValidateDenom", "codec marshalling"}
 	r.NotDecided = []string{"numeric bounds inside validators beyond presence of a rejecting comparison", "governance proposal flow"}
 
@@ -864,6 +867,10 @@ func fieldRule(c *Ctx, m, field string, t types.Type, v *ssa.Function) {
 				}
 			}
 		}
+		if !elem {
+			// the loop may stand in a helper that remembers the first bad entry and reports it after the loop
+			elem = stickyElementCheck(c, v, asserted)
+		}
 		r.Require(empty, "A7.validate-rule", key+"|non-empty", w.Pos(v.Pos()), "the validator of "+key+" rejects an empty signer list", "no rejecting len == 0 comparison")
 		r.Require(elem, "A7.validate-rule", key+"|well-formed", w.Pos(v.Pos()), "the validator of "+key+" rejects every element of strings.Split(value, \",\") that is not a valid bech32 address — every iteration, no element skipped (Validate counts the same split elements against MinAccepts)", "no rejecting AccAddressFromBech32 check that every loop iteration passes")
 	}
@@ -911,4 +918,179 @@ func forAllLoop(c *Ctx, g *ssa.Function, b *ssa.BasicBlock) bool {
 		}
 	}
 	return true
+}
+
+// stickyElementCheck: the signer list is checked by a helper that walks strings.Split(value, ","), remembers the first
+// element that is not a valid bech32 address in an error variable — never cleared once set — and hands that error back
+// after the loop; the validator turns the list away when it is not nil. Decided as: (1) every successful return of the
+// validator stands under "the helper's error is nil"; (2) the error the helper returns is carried by a variable whose
+// only values are nil (before the loop), itself, or a newly constructed error; (3) in the helper's call-expanded view no
+// turn of the loop reaches the next one without either the bech32 check of that element having passed, a new error having
+// been put into the variable, or the variable having been found set already.
+func stickyElementCheck(c *Ctx, v *ssa.Function, asserted func(*ir.Expr) bool) bool {
+	w := c.W
+	for _, b := range v.Blocks {
+		for _, in := range b.Instrs {
+			call, ok := in.(*ssa.Call)
+			if !ok {
+				continue
+			}
+			h := call.Call.StaticCallee()
+			if h == nil || len(h.Blocks) == 0 || ir.FnPkg(h) != ir.FnPkg(v) || ir.ErrIndex(h) < 0 {
+				continue
+			}
+			e := w.ExprOf(call)
+			if e.Op != "call" || !e.Any(asserted) {
+				continue
+			}
+			ei := ir.ErrIndex(h)
+			// (1)
+			isErr := func(x *ir.Expr) bool {
+				return x.Op == "res" && x.Name == fmt.Sprint(ei) && len(x.Args) == 1 && x.Args[0].Call == ssa.CallInstruction(call) || h.Signature.Results().Len() == 1 && x.Call == ssa.CallInstruction(call)
+			}
+			isNil := func(y *ir.Expr) bool { return y.Op == "const" && y.Name == "nil" }
+			guarded := true
+			for _, ret := range w.SuccessReturns(v) {
+				if !w.Guarded(v, ret, func(p ir.Pred) bool { return cmpIs(p, "==", isErr, isNil) }, 0) {
+					guarded = false
+				}
+			}
+			if !guarded {
+				continue
+			}
+			// (2) the variable behind the returned error
+			web := map[ssa.Value]bool{}
+			ctors := map[ssa.Instruction]bool{}
+			okWeb := true
+			var visit func(x ssa.Value)
+			visit = func(x ssa.Value) {
+				if web[x] {
+					return
+				}
+				web[x] = true
+				switch y := x.(type) {
+				case *ssa.Phi:
+					for _, ed := range y.Edges {
+						visit(ed)
+					}
+				case *ssa.Const:
+					if !y.IsNil() {
+						okWeb = false
+					}
+				case *ssa.Call:
+					name := ""
+					if sc := y.Call.StaticCallee(); sc != nil {
+						name = sc.Name()
+					}
+					switch name {
+					case "Errorf", "New", "Wrap", "Wrapf":
+						ctors[y] = true
+					default:
+						okWeb = false
+					}
+				default:
+					okWeb = false
+				}
+			}
+			for _, ret := range ir.Returns(h) {
+				visit(ret.Results[ei])
+			}
+			if !okWeb || len(ctors) == 0 {
+				continue
+			}
+			// the only nil that enters the variable is the one it starts with: a nil constant may be an operand only of
+			// a phi at a loop header, on the way in from outside the loop
+			for x := range web {
+				ph, ok := x.(*ssa.Phi)
+				if !ok {
+					continue
+				}
+				for k, ed := range ph.Edges {
+					if cst, ok := ed.(*ssa.Const); ok && cst.IsNil() {
+						pred := ph.Block().Preds[k]
+						if ph.Block().Dominates(pred) {
+							okWeb = false // assigned nil again inside the loop
+						}
+					}
+				}
+			}
+			if !okWeb {
+				continue
+			}
+			// (3) per turn of each loop over the split elements
+			for _, be := range ir.BackEdges(h) {
+				latch, hdr := be[0], be[1]
+				isElem := func(x *ir.Expr) bool {
+					return x.Any(func(z *ir.Expr) bool {
+						return z.Op == "elem" && len(z.Args) >= 1 && (calleeIs(z.Args[0], "strings.Split") || calleeIs(w.Expand(z.Args[0], 2), "strings.Split"))
+					})
+				}
+				checked := func(p ir.Pred) bool {
+					return cmpIs(p, "==", func(x *ir.Expr) bool {
+						return x.Op == "res" && x.Name == "1" && len(x.Args) == 1 && calleeIs(x.Args[0], "types.AccAddressFromBech32") && len(x.Args[0].Args) == 1 && isElem(x.Args[0].Args[0])
+					}, isNil)
+				}
+				// edges on which the variable is found set already
+				alreadySet := map[[2]int]bool{}
+				for _, bb := range h.Blocks {
+					iff, ok := bb.Instrs[len(bb.Instrs)-1].(*ssa.If)
+					if !ok {
+						continue
+					}
+					bo, ok := iff.Cond.(*ssa.BinOp)
+					if !ok || (bo.Op != token.EQL && bo.Op != token.NEQ) {
+						continue
+					}
+					var other ssa.Value
+					if cst, ok := bo.Y.(*ssa.Const); ok && cst.IsNil() {
+						other = bo.X
+					} else if cst, ok := bo.X.(*ssa.Const); ok && cst.IsNil() {
+						other = bo.Y
+					}
+					if other == nil || !web[other] {
+						continue
+					}
+					side := 1
+					if bo.Op == token.NEQ {
+						side = 0
+					}
+					alreadySet[[2]int{bb.Index, side}] = true
+				}
+				root := w.FlatRoot(h)
+				turnOK := true
+				for _, su := range hdr.Succs {
+					if su == hdr || !hdr.Dominates(su) || len(su.Instrs) == 0 || !ir.ReachesFrom(h, su, 0, latch.Instrs[len(latch.Instrs)-1], ir.Cut{}) {
+						continue
+					}
+					// (walk from the header's terminator with the way out of the loop cut, so that the body is entered)
+					from := ir.FPos{Ctx: root, In: hdr.Instrs[len(hdr.Instrs)-1]}
+					cut := &ir.FlatCut{Matcher: checked, Depth: 2,
+						Barrier: func(_ *ir.FCtx, x ssa.Instruction) bool { return ctors[x] },
+						Edges: func(cx *ir.FCtx) map[[2]int]bool {
+							if cx != root {
+								return nil
+							}
+							out := map[[2]int]bool{}
+							for k := range alreadySet {
+								out[k] = true
+							}
+							for si, s2 := range hdr.Succs {
+								if s2 != su {
+									out[[2]int{hdr.Index, si}] = true
+								}
+							}
+							return out
+						}}
+					first := hdr.Instrs[0] // coming round to the header again (the back edge may be the untaken side of the last test)
+					if w.FlatReaches(root, &from, cut, func(p ir.FPos) bool { return p.Ctx == root && p.In == first }) != nil {
+						turnOK = false
+					}
+				}
+				if turnOK {
+					return true
+				}
+			}
+		}
+	}
+	return false
 }
